@@ -257,9 +257,23 @@ impl<'a> Gen<'a> {
                     format!("({a} + {})", self.lit(t))
                 }
             }
-            4 | 5 => {
+            4 => {
                 self.heavy -= 1;
                 format!("({a} * {b})")
+            }
+            5 => {
+                // multiplication by a small constant (compiled as repeated addition)
+                let k = *self.p.pick(&[2u64, 3, 3, 5, 7]);
+                let suffix = match t {
+                    Ty::U8 => "u8",
+                    Ty::U16 => "u16",
+                    _ => "i8",
+                };
+                if self.p.chance(1, 3) {
+                    format!("(({a} * {k}{suffix}) * {}{suffix})", self.p.pick(&[2u64, 3]))
+                } else {
+                    format!("({a} * {k}{suffix})")
+                }
             }
             6 => {
                 self.heavy -= 1;
